@@ -38,6 +38,7 @@ def run(chk):
     n = 60 if tier == "quick" else 600
     cases, meta = [], {}
     metam = {}
+    metas = {}
     metap = {}
     for i in range(n):
         r = chk.rng.fork()
@@ -174,6 +175,21 @@ def run(chk):
         cases.append(("Q%d" % i, ["newcompiler", "add " + hx((comp4 + tgt4).encode()), "getrules", "scanner 0"] + pscans))
         cases.append(("R%d" % i, ["newcompiler", "add " + hx((tgt4 + comp4).encode()), "getrules", "scanner 0"] + pscans))
         metap[i] = (tgt4, comp4, pbufs)
+        # S/T/U: a companion whose string exceeds the per-string match cap (the scanner then ignores THAT string for the rest of the scan and
+        # tells the callback): the target's string, occurring before and after the point where the cap is hit, must still be found
+        if i < (1 if tier == "quick" else 3):
+            cap = int(vlib.consts().get("YR_MAX_STRING_MATCHES", 1000000))
+            vs = bytes(r.choice(b"BCDFGHJKLMNP") for _ in range(8))
+            noisy_b = r.choice(b"xyz")
+            victim = 'rule victim { strings: $v = "%s" $w = "never77" condition: $v or $w }\n' % vs.decode()
+            noisy = 'private rule noisy { strings: $n = "%c" condition: #n > 10 }\n' % noisy_b
+            pad0 = 'rule pad0 { condition: true }\n' * 0
+            big = vs + b"." + bytes([noisy_b]) * (cap + 50) + b"." + vs + b"." + bytes([noisy_b]) * 20 + vs
+            sb = ["scan " + hx(big)]
+            cases.append(("S%d" % i, ["newcompiler", "add " + hx(victim.encode()), "getrules", "scanner 0"] + sb))
+            cases.append(("T%d" % i, ["newcompiler", "add " + hx((victim + noisy).encode()), "getrules", "scanner 0"] + sb))
+            cases.append(("U%d" % i, ["newcompiler", "add " + hx((noisy + victim).encode()), "getrules", "scanner 0"] + sb))
+            metas[i] = (victim, noisy, len(big))
         # H/I: rule sets with a wildcard (`all of (pk_*)`) select rules of their OWN namespace only: namespace nsB alone (H) vs after a
         # namespace nsA that has rules with the same prefix and other verdicts (I)
         pk = "rule pk_1 { condition: filesize > %d }\nrule pk_2 { condition: true }\n" % r.choice([20, 40, 60])
@@ -259,6 +275,21 @@ def run(chk):
                     break
                 if any(x and x[0] == "M" for x in lm[:3]):
                     chk.add("deep_atom_near_block_start_matches")
+        if not bad and i in metas:
+            victim, noisy, blen = metas[i]
+            ls_ = [rule_result(l, "victim") for l in out.get("S%d" % i, []) if l.startswith("scan msgs=")]
+            for v in "TU":
+                lt = [rule_result(l, "victim") for l in out.get("%s%d" % (v, i), []) if l.startswith("scan msgs=")]
+                if len(ls_) != 1 or lt != ls_:
+                    chk.violation("company:match-cap-of-another-string", "rule victim alone: %s ; compiled %s a rule whose string exceeds the per-string match cap: %s"
+                                  % ([x[:120] if x else x for x in ls_], "before" if v == "T" else "after", [x[:120] if x else x for x in lt]),
+                                  {"target": victim, "companion": noisy, "buffer": "victim string, '.', %d x the companion's byte, '.', victim string, ... (%d bytes)" % (blen - 60, blen),
+                                   "variant": v, "output_alone": [l[:200] for l in out.get("S%d" % i, [])[-3:]], "output_company": [l[:200] for l in out.get("%s%d" % (v, i), [])[-3:]],
+                                   "how": "h_scan: newcompiler; add <victim + noisy | noisy + victim>; getrules; scanner 0; scan <buffer>"})
+                    bad = True
+                    break
+            if not bad:
+                chk.add("match_cap_company_cases")
         if not bad:
             tgt4, comp4, pbufs = metap[i]
             lp = [rule_result(l, "target4") for l in out.get("P%d" % i, []) if l.startswith("scan msgs=")]
